@@ -704,7 +704,11 @@ class TimestampConverter:
     @staticmethod
     def to_unix_millis(dt: datetime.datetime | None) -> int | None:
         """Convert datetime to Unix timestamp in milliseconds."""
-        return int(dt.timestamp() * 1000) if dt else None
+        if not dt:
+            return None
+        # whole seconds and the millisecond part are combined as integers: multiplying the float
+        # timestamp by 1000 can land just below a millisecond boundary and lose one millisecond
+        return int(dt.timestamp()) * 1000 + dt.microsecond // 1000
 
     @staticmethod
     def from_unix_millis(ms: int | None) -> datetime.datetime | None:
@@ -909,22 +913,22 @@ class Operation:
         data_copy = copy.deepcopy(data)
 
         # Convert millisecond timestamps back to datetime objects
-        if ms := data_copy.get("StartTimestamp"):
+        if (ms := data_copy.get("StartTimestamp")) is not None:
             data_copy["StartTimestamp"] = TimestampConverter.from_unix_millis(ms)
 
-        if ms := data_copy.get("EndTimestamp"):
+        if (ms := data_copy.get("EndTimestamp")) is not None:
             data_copy["EndTimestamp"] = TimestampConverter.from_unix_millis(ms)
 
         if (step_details := data_copy.get("StepDetails")) and (
             ms := step_details.get("NextAttemptTimestamp")
-        ):
+        ) is not None:
             step_details["NextAttemptTimestamp"] = TimestampConverter.from_unix_millis(
                 ms
             )
 
         if (wait_details := data_copy.get("WaitDetails")) and (
             ms := wait_details.get("ScheduledEndTimestamp")
-        ):
+        ) is not None:
             wait_details["ScheduledEndTimestamp"] = TimestampConverter.from_unix_millis(
                 ms
             )
